@@ -21,6 +21,7 @@ RULE = (
     "strategies.  Oracle: per-thread transcript == solo transcript.  distinct_nontrivial = number of "
     "distinct hand-over sequences (digest of (from,to,file:line) lists) with at least one hand-over."
 )
+REACH = ['handover_in_window:flatten', 'handover_in_window:leaf', 'handover_in_window:snapshot', 'handover_in_window:pushed', 'strategy:random', 'strategy:pct', 'strategy:rendezvous', 'strategy:window:flatten', 'rendezvous_on_shared_state_line', 'threads:3']  # counters (prefixes) that a healthy batch makes non-zero; gaps are reported in the evidence
 BUDGET = {"quick": 40, "thorough": 600}
 
 
@@ -145,8 +146,18 @@ def execute(scn):
     solo = _transcripts(runs0)
     scn2 = dict(scn, _expected_yields=max(50, sc0.total_yields))
     if scn["sched"]["kind"] == "rendezvous" and scn["sched"].get("line") is None:
+        rr = rng(seed, "rendezvous")
         lines = sorted(sc0.lines_seen)
-        pick = lines[rng(seed, "rendezvous").randrange(len(lines))] if lines else ("", 0)
+        hot = sorted(sc0.global_lines)
+        # half of the rendezvous runs target a line that touches module-level mutable state (or the line after it: the
+        # window is between the write and the next use), the other half any executed line
+        if hot and rr.random() < 0.5:
+            f_, l_ = hot[rr.randrange(len(hot))]
+            cand = [x for x in lines if x[0] == f_ and l_ <= x[1] <= l_ + 2]
+            pick = cand[rr.randrange(len(cand))]
+            stats.inc("rendezvous_on_shared_state_line")
+        else:
+            pick = lines[rr.randrange(len(lines))] if lines else ("", 0)
         scn2["sched"] = dict(scn["sched"], line=list(pick))
     ctxsim.clear_caches()
     interp1, runs1, sc1, _ = ctxsim.run_threads(
@@ -158,6 +169,7 @@ def execute(scn):
     stats.inc("handovers", len([h for h in sc1.handovers if h[1] != "fin"]))
     stats.inc("strategy:" + scn["sched"]["kind"] + (":" + scn["sched"]["w"] if scn["sched"]["kind"] == "window" else ""))
     stats.mx("distinct_lines_in_a_run", len(sc0.lines_seen))
+    stats.mx("lines_touching_module_level_mutable_state", len(sc0.global_lines))
     stats.inc(f"threads:{n}")
     if scn.get("opcode_storage"):
         stats.inc("opcode_level_runs_storage")
